@@ -13,6 +13,7 @@ import (
 	"math/rand"
 	"net/http"
 	"net/http/httptest"
+	"regexp"
 	"strconv"
 	"sync"
 	"time"
@@ -71,6 +72,7 @@ func ccFlame(g *ccGates) *flamego.Flame {
 		g.gate(id)
 		c.Map(&reqTag{id})
 	})
+	f.Use(flamego.Recovery()) // development environment: the answer to a panic carries the formatted stack with source lines
 	f.Use(flamego.Renderer())
 	// two more middleware, added one by one: the middleware slice then has spare capacity (len 3, cap 4),
 	// which is what makes an append to it by one request visible to another
@@ -100,6 +102,15 @@ func ccFlame(g *ccGates) *flamego.Flame {
 		c.ResponseWriter().Header().Set("X-Wid", strconv.Itoa(id))
 		r.JSON(200, out) // through the Render service mapped by the Renderer middleware for this request
 	})
+	f.Get("/pn/{v}", func(c flamego.Context, t *reqTag) {
+		id := idOf(c.Request().Request)
+		g.gate(id)
+		hd := c.ResponseWriter().Header()
+		hd.Set("X-Wid", strconv.Itoa(id))
+		hd.Set("X-Tag", strconv.Itoa(t.id))
+		hd.Set("X-Url", c.URLPath("named", "v", c.Request().Header.Get("X-Val")))
+		panic(fmt.Sprintf("boom-%s-%d-", c.Param("v"), id))
+	})
 	f.Get("/s", h("static"))
 	f.Get("/p/{v}", h("param")).Name("named")
 	f.Get("/o/?{v}", h("opt"))
@@ -109,9 +120,13 @@ func ccFlame(g *ccGates) *flamego.Flame {
 	return f
 }
 
+var rePanicPage = regexp.MustCompile(`boom-([a-z0-9]+)-(\d+)-`)
+
+func m0(rq ccReq) string { return fmt.Sprintf("boom-%s-%d-", rq.Val, rq.ID) }
+
 func ccRequest(rq ccReq) *http.Request {
 	path := map[string]string{"static": "/s", "param": "/p/" + rq.Val, "opt": "/o/" + rq.Val, "regex": "/r/" + rq.Val,
-		"all": "/a/" + rq.Val, "hdr": "/h", "render": "/rd/" + rq.Val}[rq.Route]
+		"all": "/a/" + rq.Val, "hdr": "/h", "render": "/rd/" + rq.Val, "panic": "/pn/" + rq.Val}[rq.Route]
 	r, _ := http.NewRequest("GET", path, nil)
 	r.Header.Set("X-Req-Id", strconv.Itoa(rq.ID))
 	r.Header.Set("X-Val", rq.Val)
@@ -158,6 +173,22 @@ func ccReplay(raw json.RawMessage, idx int, tr *traceWriter) {
 			}()
 			results[i].body = w.Body.String()
 			_ = json.Unmarshal(w.Body.Bytes(), &results[i].out)
+			if rq.Route == "panic" {
+				// answered by Recovery: 500 and a page that names this request's panic value; what the handler put in
+				// its own header map before panicking is still there
+				o := &results[i].out
+				if m := rePanicPage.FindStringSubmatch(w.Body.String()); w.Code == 500 && m != nil {
+					o.H, o.Val = "panic", m[1]
+					o.Wid, _ = strconv.Atoi(m[2])
+				}
+				o.Tag, _ = strconv.Atoi(w.Header().Get("X-Tag"))
+				o.URL = w.Header().Get("X-Url")
+				for _, all := range rePanicPage.FindAllString(w.Body.String(), -1) {
+					if all != m0(rq) {
+						o.H = "?foreign-panic-text"
+					}
+				}
+			}
 			if wid, err := strconv.Atoi(w.Header().Get("X-Wid")); err != nil || wid != results[i].out.Wid {
 				results[i].out.Wid = -1 // the header written through the handler's writer landed elsewhere
 			}
@@ -196,7 +227,7 @@ func ccReplay(raw json.RawMessage, idx int, tr *traceWriter) {
 
 func ccGen(seed int64, n int, args []string, out *json.Encoder) {
 	rng := rand.New(rand.NewSource(seed))
-	kinds := []string{"static", "param", "opt", "regex", "all", "hdr", "render", "render"}
+	kinds := []string{"static", "param", "opt", "regex", "all", "hdr", "render", "render", "panic", "panic"}
 	for i := 0; i < n; i++ {
 		k := 8 + rng.Intn(57)
 		c := ccCase{Sched: []int{}}
